@@ -701,7 +701,11 @@ def add_races(rng, version, ops, kind, n=(2, 5)):
                 continue
             vt = rng.choice(new_types)
             out.append(["set", nid, cid, have[0], f"d{rng.randrange(100)}", {}])
-            out.append(["race", {"line": f"{nid};255;3;0;{wake_sub};{rng.randrange(1000)}", "call": ["set", nid, cid, vt, f"n{rng.randrange(100)}"]}])
+            spec = {"line": f"{nid};255;3;0;{wake_sub};{rng.randrange(1000)}", "call": ["set", nid, cid, vt, f"n{rng.randrange(100)}"]}
+            others = [n_ for n_ in model.nodes if n_ != nid and not model.sleeping(n_) and isinstance(n_, int) and 0 < n_ < 255]
+            if others and rng.random() < 0.6:
+                spec["behind"] = f"{rng.choice(others)};255;3;0;0;{rng.randrange(101)}"  # another node's battery report right behind
+            out.append(["race", spec])
             model.store_desired(nid, cid, vt, "x")
             budget -= 1
         else:
